@@ -127,7 +127,7 @@ func respell(t *rapid.T) (*gen.Style, []string, bool) {
 	st := gen.DefaultStyle()
 	var names []string
 	permute := false
-	all := []string{"newline", "indent", "comments", "multiline", "spread", "quote-names", "trailing-comma", "blank-lines", "rule-order", "space-before-colon", "empty-annotations", "mixed-annotations", "enum-item-notes", "note-on-next-line", "join-lines"}
+	all := []string{"newline", "indent", "comments", "multiline", "spread", "quote-names", "trailing-comma", "blank-lines", "rule-order", "space-before-colon", "empty-annotations", "mixed-annotations", "enum-item-notes", "note-on-next-line", "join-lines", "notes"}
 	n := rapid.IntRange(1, 5).Draw(t, "nrewrites")
 	for _, r := range rapid.Permutation(all).Draw(t, "rewrites")[:n] {
 		names = append(names, r)
@@ -137,7 +137,7 @@ func respell(t *rapid.T) (*gen.Style, []string, bool) {
 		case "indent":
 			st.Indent = rapid.SampledFrom([]string{"", " ", "\t", "      "}).Draw(t, "indent")
 		case "comments":
-			st.Comments = rapid.IntRange(1, 3).Draw(t, "comments")
+			st.Comments = rapid.IntRange(1, 4).Draw(t, "comments")
 		case "multiline":
 			st.MultiLine = true
 		case "spread":
@@ -156,6 +156,11 @@ func respell(t *rapid.T) (*gen.Style, []string, bool) {
 			st.AutoItemNotes = true // notes on enum items (only possible inside multi-line annotations)
 			if !st.MultiLine && st.MixedAnn == 0 {
 				st.MixedAnn = rapid.IntRange(1, 2).Draw(t, "mixedAnnForNotes")
+			}
+		case "notes":
+			st.AutoNotes = rapid.IntRange(1, 3).Draw(t, "autoNotes") // annotation notes the canonical spelling does not have
+			if st.Comments == 0 && rapid.Bool().Draw(t, "notesWithComments") {
+				st.Comments = rapid.IntRange(3, 4).Draw(t, "notesCommentLevel") // a '#' comment after a note on the same line
 			}
 		case "join-lines":
 			st.JoinLines = true // several properties per line, one-line containers (no effect together with comments)
